@@ -528,6 +528,10 @@ func namedValues() []interface{} {
 }
 
 func run(c *runner.Ctx) {
+	if c.Mode == "conc" || c.Mode == "race" {
+		runConc(c)
+		return
+	}
 	profiles := []int{0, 1, 2, 3}
 	evalType := func(t ty, ps []int) {
 		for _, p := range ps {
@@ -805,9 +809,15 @@ func main() {
 			"all 1- and 2-field structs over level 1, 3-field structs (thorough: full level 1; quick: 12-type subset), level 2 alone and next to level-1 / level-2 neighbours in both orders, level 3 (and a thinned level 4 on thorough); " +
 			"values: 4 profiles per type (all zero / nil; one entry; two-three entries with nested zero values and nil pointers; empty non-nil collections) plus alternative floats, extremes of every integer width; each as T and *T; " +
 			"plus fixed named types and long collections (31..130 elements of 14 element types in a slice, an int-keyed and a string-keyed map, followed by further struct fields); oracle: json.Valid and the independent RFC 8259 recogniser accept the output; decoded with UseNumber it equals the standard encoder's document after bool -> \"true\"/\"false\", null slice -> [], null map -> {}, numbers compared by value; " +
-			"transitions = dumper calls; non-trivial = types containing an empty struct, a map, a bool or a leading unexported field",
+			"additionally (modes conc / race, under the controlled scheduler of C10/C11): 2-3 threads dump values of struct types that are new in every execution, all schedules within preemption bound 2 (thorough 3), each result = the result of the call made alone, race detector silent; " +
+			"transitions = dumper calls / scheduling steps; non-trivial = types containing an empty struct, a map, a bool or a leading unexported field",
 		Assumptions: []string{"excluded by the statement: interface fields, pointers to scalars, time.Time, func/chan, strings needing escapes; additionally not generated: arrays, []uint8 (base64 in the standard encoder), embedded fields (flattened by the standard encoder), pointers to pointers, float32 values that are not dyadic, json struct tags",
 			"encoding/json is the standard encoder"},
 		Run: run,
+		Modes: []runner.Mode{
+			{Name: "seq"},
+			{Name: "conc", Workers: 4},
+			{Name: "race", BinarySuffix: ".race", Workers: 4, Env: []string{"GORACE=log_path={W}.race halt_on_error=0 exitcode=0 atexit_sleep_ms=0 history_size=2"}},
+		},
 	})
 }
